@@ -294,6 +294,8 @@ def r5(ctx):
                 [render(tm) for bi, t, tm in cb.real_calls() if cb.guard(bi) == frozenset([frozenset()])] == ["Into::into($1)", snd]:
             cbok = True
     ctx.check("forward_to", ok and cbok, "forwards every item, in order, until the receiver is gone", got=r[:200], key="forward")
+    # ... and the channel the items are forwarded into is tokio's, unadorned
+    common.channel_passthrough(ctx)
 
 
 RULES = [
